@@ -573,6 +573,8 @@ def native_replay(job, ins, outdir):
     txt = out + err
     evidence = any(k in txt for k in ("REPLAY-CHECK-FAILED", "ERROR: AddressSanitizer", "ERROR: LeakSanitizer", "runtime error:",
                                       "Assertion `", "Assertion '"))
+    if "ReserveShadowMemoryRange failed" in txt or "failed to allocate" in txt and "shadow" in txt:
+        evidence = False     # ASan could not start (caller's ulimit -v): not a reproduction
     reproduced = (rc != 0 and rc != 3) and not to and evidence and "REPLAY-ASSUME-FAILED" not in txt
     return {"built": True, "reproduced": reproduced, "rc": rc, "timed_out": to, "output": txt[-3000:]}
 
